@@ -244,6 +244,26 @@ def run(ctx):
             ctx.violation('PDUCacher with layers stacked on it: clone() is not equal to its source (%s)' % (lh[-1] if lh else '<none>')[:80],
                           '=== replay (harness h_pkt)\n' + '\n'.join(lines) + '\n--- C++ output\n' + '\n'.join(l[:300] for l in lh) + '\n')
             break
+    # ---- layers whose ownership is taken over with release_inner_pdu() by the legacy stream follower: every payload layer it takes
+    #      must be freed, whatever becomes of the segment (delivered, buffered, duplicate, stale retransmission) -- LSan in harness h_dt
+    C.build_harness('h_dt')
+    ts_ = []
+    for i in range(40 if quick else 800):
+        isn = rng.choice([0, 1000, 4294967290, rng.randrange(1 << 32)])
+        data = [rng.randrange(256) for _ in range(rng.choice([8, 20, 40]))]
+        lines = ['new %d' % isn]
+        for _ in range(rng.randrange(2, 9)):
+            a_ = rng.randrange(0, len(data)); ln = rng.randrange(0, len(data) - a_ + 1)
+            lines.append('seg %d x%s' % ((isn + a_) % (1 << 32), ''.join('%02x' % x for x in data[a_:a_ + ln])))
+        ts_.append(('t%d' % i, lines))
+    th_ = C.run_harness('h_dt', ts_)
+    ctx.cov['evaluations'] += len(ts_)
+    for sid, lines in ts_:
+        crash = [l for l in th_.get(sid, []) if l.startswith('!!')]
+        if crash:
+            ctx.violation('legacy TCPStream over segments of one stream (duplicates, partial retransmissions): %s' % crash[0][:200],
+                          '=== replay (harness h_dt)\n' + '\n'.join(lines) + '\n--- C++ output\n' + '\n'.join(l[:300] for l in th_.get(sid, [])) + '\n')
+            break
     ctx.cov['rule'] = ('random programs over 18 operations on a pool of 8 objects (9 layer classes) and 4 Packet wrappers, plus programs biased to copy/move '
                        'assignment between chains of different lengths with the same head class; copies taken from inner layers (subclone/subcopy) and clones of a PDUCacher with stacked layers are judged by a Python reference only (not operations of the Coq model); non-trivial = distinct program using >=4 operation kinds that builds a multi-layer chain')
     ctx.cov['samples'] = [batch[0][1][:10], batch[n1][1][:10]]
